@@ -201,6 +201,9 @@ class Sim(object):
         self.wall_offset = 0.0
         self.p_clock_jump = (0.0, 0.0, 0.0, 0.02)[d(4, kind="p_clock_jump")]
         self.jump_budget = 1
+        # simulated processes may run on different hosts / in different pid namespaces that share the file system:
+        # 0 = all pids distinct, m > 0 = the pid of process k is k mod m (collisions)
+        self.pid_mod = (0, 0, 0, 1, 2)[d(5, kind="pid_namespaces")]
         self._pct_changes = ()
         if self.strategy == "pct":
             k = d(4, kind="pct_k")
@@ -349,7 +352,9 @@ class Sim(object):
             return
         self._check()
         self.log(t.name, op)
-        if op == "cb" or op.startswith("write"):
+        if op == "cb" or op.startswith(("write", "read ")):
+            # tile I/O is work, not polling (a serial cascade over a sparse deep pyramid reads thousands of absent
+            # children in a row); polling consists of timed receives, sleeps and lock-file creation attempts
             self.last_progress = self.step
         if self.p_stall > 0.0 and self.stall_budget > 0 and self.faults_stopped_at is None:
             if self.draw(2, p0=1.0 - self.p_stall, kind="stall") == 1:
